@@ -99,6 +99,7 @@ package cdata
 // ---- bulk operations of the C back-end against the same row-major definitions as the Go back-end (C02, C03) ----
 
 //@ func (*nd{t}C).Unroll(nd) returns (r)
+//@   simplify entry-ids
 //@   safety C03
 //@   uses C02.lemma-iprod-positive, C02.lemma-idot-rm
 //@   requires len(nd.Dims) >= 1 && len(nd.OffsetStep) == len(nd.Dims)
